@@ -71,7 +71,7 @@ def _jobs(tier, seed):
                 w = "".join(w)
                 inputs.append(w)
         inputs += [" ".join(w) + " " for w in rng.sample(inputs, 6)]
-        jobs.append({"g": g, "inputs": inputs, "tables": ["LALR"], "origin": "det", "variant": "overlap"})
+        jobs.append({"g": g, "inputs": inputs, "tables": ["LALR", "SLR"] if k % 3 == 0 else ["LALR"], "origin": "det", "variant": "overlap"})
     # lexical ambiguity between tokens of DIFFERENT length ("a" vs "aa" [vs "aaa"]): shifts deferred to a later round, heads in one
     # state at different positions (finding D23: GSS node ids collided).  All grammars of F(3,2) that use both terminals.
     for terms, tag, lim in ((gen.OVERLAP_TERMS[:2], "lexamb", p["nlexamb"]), (gen.OVERLAP_TERMS[:2] + [("t8", "str", "aaa")], "lexamb3", p["nlexamb"] // 2)):
@@ -83,7 +83,7 @@ def _jobs(tier, seed):
         if len(fam2) > lim:
             fam2 = rng.sample(fam2, lim)
         for g in wit + fam2:
-            jobs.append({"g": g, "inputs": ["a" * n for n in range(1, p["lexlen"] + 1)], "tables": ["LALR"], "origin": "det", "variant": tag})
+            jobs.append({"g": g, "inputs": ["a" * n for n in range(1, p["lexlen"] + 1)], "tables": ["LALR", "SLR"] if len(jobs) % 4 == 0 else ["LALR"], "origin": "det", "variant": tag})
     # hand-written list / optional idioms in sequence (gen.idiom_family)
     rng = random.Random(8282)
     for i, g in enumerate(gen.idiom_family(limit=p["nidiom"], rng_seed=4713)):
